@@ -9,7 +9,7 @@ from ..core import Module, Undecided, AnalysisError, norm, short, attr_chain, na
 from ..report import Rule, RuleCtx
 from ..paths import enumerate_paths
 from ..flow import Flow
-from ..tables import Atom, Table
+from ..tables import Atom, Table, canon as tables_canon
 from ..consteval import fold_expr, Regex
 from .. import rx
 from . import c14_taint as taint
@@ -36,7 +36,12 @@ EXPLANATION = (
     'sorted(keys) and emits once per key on every non-raising path; R6 every call between functions of the pipeline hands on the context parameters the '
     'caller holds (format switch at_only, data object, subproject, pattern): none omitted in favour of a default, replaced by a constant or '
     'cross-wired, and the dispatchers derive at_only as format == cmake@; R7 the tests that send a line to a define transformer cannot '
-    'depend on the leading blanks of the line (dependence flow as in R4c; both sibling loops agree). NOT decided: the cmake scanner (index arithmetic over run-time '
+    'depend on the leading blanks of the line (dependence flow as in R4c; both sibling loops agree), a test inside a define transformer is not anchored across the gap after `#` that '
+    'the dispatch test skips, and the transformer takes no fixed offset into the still indented line; R8 in the @ arm of the cmake scanner the path '
+    'conditions imply that the name slice is not empty (difference bounds over `name +/- constant`); R9 a token of a directive line is indexed only '
+    'under a length guard or IndexError handler; R10 after a placeholder is replaced the cmake scanner resumes behind the inserted value (symbolic '
+    'effect of the loop-body row). NOT decided: tokens of a #cmakedefine value that are set names being replaced by str(value) (legacy behaviour, kept '
+    'as is by R3); `#cmakedefineX` / `#mesondefineX` accepted by the prefix test of the dispatchers; backslash escapes in the cmake formats; the cmake scanner (index arithmetic over run-time '
     'strings); how many backslashes of a run the regex engine consumes for a concrete text (leftmost/greedy matching); whether a '
     'result that depends on the terminator/indentation reproduces it exactly (only independence is refuted); indentation of '
     '#cmakedefine lines (the code slices line[1:], which observes the indentation); the nasm description comment; output bytes for '
@@ -82,6 +87,15 @@ def _r1_findings(mod: Module, roots: T.List[str]) -> T.Tuple[taint.Analysis, T.L
     an = taint.Analysis(mod)
     for r in roots:
         an.summary(r)
+    # closures handed around as values (callbacks, per-line workers passed to a shared driver) are not reached by a call through
+    # their name: summarise every function nested in a summarised one as well
+    grew = True
+    while grew:
+        grew = False
+        for q in list(mod.funcs()):
+            if q not in an.summaries and '.' in q and q.rsplit('.', 1)[0] in an.summaries and '#' not in q:
+                an.summary(q)
+                grew = True
     sinks: T.List[taint.Sink] = []
     for q, s in an.summaries.items():
         sinks.extend(s.sinks)
@@ -129,7 +143,7 @@ def _variable_regex(ctx: RuleCtx, mod: Module, fmt: str) -> Regex:
     params = [a.arg for a in fn.args.args]
     if len(params) != 1:
         raise Undecided('get_variable_regex: expected one parameter (the format)')
-    tab = shape.table(fn, handlers=False, name='get_variable_regex')
+    tab = _table(mod, fn, handlers=False, name='get_variable_regex')
     want = Atom('cmp', ('eq', params[0], repr(fmt)))
     rows = [r for r in tab.rows if r.conds.get(want) is True]
     if len(rows) != 1 or rows[0].outcome[0] != 'return':
@@ -213,6 +227,39 @@ def _scan_call(mod: Module, qn: str) -> T.Tuple[ast.Call, str, ast.AST]:
 # ---------------------------------------------------------------------------------------------
 # decision tables with symbolic text outcomes (R2 callback, R3)
 # ---------------------------------------------------------------------------------------------
+def _module_consts(mod: Module, fn: ast.AST) -> T.Dict[str, ast.AST]:
+    """Module-level constants (string / number literals) the function reads by name: folded into its tables (policy form a)."""
+    local = {n.id for n in ast.walk(fn) if isinstance(n, ast.Name) and isinstance(n.ctx, ast.Store)} | \
+        {a.arg for f_ in ast.walk(fn) if isinstance(f_, (ast.FunctionDef, ast.Lambda)) for a in f_.args.args + f_.args.kwonlyargs}
+    out: T.Dict[str, ast.AST] = {}
+    for n in ast.walk(fn):
+        if isinstance(n, ast.Name) and isinstance(n.ctx, ast.Load) and n.id not in local and n.id not in out and mod.has_assign(n.id):
+            v = mod.assign_value(n.id)
+            if isinstance(v, ast.Constant) and isinstance(v.value, (str, int)):
+                out[n.id] = v
+    return out
+
+
+def _table(mod: Module, fn: ast.AST, body: T.Optional[T.List[ast.stmt]] = None, *, base: T.Optional[T.Dict[str, ast.AST]] = None, **kw: T.Any) -> Table:
+    b = dict(_module_consts(mod, fn))
+    b.update(base or {})
+    return shape.table(fn, body, base=b, **kw)
+
+
+def _aliases_before(fn: ast.FunctionDef, upto: ast.stmt) -> T.Dict[str, ast.AST]:
+    """Single top-level bindings `x = <name / attribute / constant>` in front of a loop (bound methods, renamed objects)."""
+    out: T.Dict[str, ast.AST] = {}
+    counts: T.Dict[str, int] = {}
+    for n in ast.walk(fn):
+        if isinstance(n, ast.Name) and isinstance(n.ctx, ast.Store):
+            counts[n.id] = counts.get(n.id, 0) + 1
+    for st in fn.body[:fn.body.index(upto)]:
+        if isinstance(st, ast.Assign) and len(st.targets) == 1 and isinstance(st.targets[0], ast.Name) and counts.get(st.targets[0].id) == 1 \
+                and isinstance(st.value, (ast.Name, ast.Attribute, ast.Constant)):
+            out[st.targets[0].id] = st.value
+    return out
+
+
 def _parse(text: str) -> ast.AST:
     try:
         return ast.parse(text, mode='eval').body
@@ -314,7 +361,7 @@ class Spec(T.NamedTuple):
     ref: T.Callable[[T.Dict[str, T.Any]], T.Optional[T.Dict[str, T.Any]]]
     extra: Extra = lambda a, v: None
     role: T.Callable[[shape.Op], T.Optional[str]] = lambda op: None
-    by_handler: bool = False
+    by_handler: bool = True      # presence may be decided by a KeyError handler (EAFP) when no membership atom exists (LBYL)
     line: T.Optional[str] = None
     scans: T.Mapping[str, T.Any] = {}
 
@@ -343,6 +390,21 @@ def _choose(spec: Spec, sem: T.Dict[str, T.Any]) -> T.Callable[[ast.AST], T.Opti
         val = _as_value(test, spec.confs)
         if val is not None and val[1] == 0 and 'truthy' in sem:
             return sem['truthy'] != neg
+        # any other test: classify it like a branch condition of the table and read the dimension off the semantic view
+        from ..tables import canon
+        a, pol = canon(test, True)
+        dim: T.Optional[T.Tuple[str, bool]] = None
+        if a.kind == 'in' and a.args[1] in spec.confs:
+            dim = ('present', True)
+        else:
+            r_ = spec.extra(a, True)
+            if isinstance(r_, tuple) and len(r_) == 2:
+                dim = (r_[0], r_[1])
+        if dim is not None and dim[0] in sem:
+            res = sem[dim[0]] == dim[1]
+            if not pol:
+                res = not res
+            return (not res) if neg else res
         return None
     return choose
 
@@ -359,13 +421,23 @@ def _text(spec: Spec, sem: T.Dict[str, T.Any], e: ast.AST, keep_ends: bool = Fal
     return t
 
 
+def _added_elems(c: ast.Call) -> T.List[ast.AST]:
+    """elements a call adds to a set: s.add(x) / s.update([x, ..]) / s.update({x, ..})"""
+    if isinstance(c.func, ast.Attribute) and len(c.args) == 1 and not c.keywords:
+        if c.func.attr == 'add':
+            return [c.args[0]]
+        if c.func.attr == 'update' and isinstance(c.args[0], (ast.List, ast.Set, ast.Tuple)):
+            return list(c.args[0].elts)
+    return []
+
+
 def _outcome(spec: Spec, sem: T.Dict[str, T.Any], r: shape.XRow, keep_ends: bool = False) -> T.Dict[str, T.Any]:
     got: T.Dict[str, T.Any] = {'kind': r.outcome[0]}
     if r.outcome[0] == 'raise':
         got['exc'] = r.outcome[1]
     elif r.outcome[0] == 'return' and r.value is not None:
         got['text'] = _text(spec, sem, r.value, keep_ends)
-    got['adds'] = [_text(spec, sem, c.args[0]) for c in r.calls if isinstance(c.func, ast.Attribute) and c.func.attr == 'add' and len(c.args) == 1]
+    got['adds'] = [_text(spec, sem, x) for c in r.calls for x in _added_elems(c)]
     got['deprecation'] = len([c for c in r.calls if norm(c.func) == 'mlog.deprecation'])
     got['writes'] = [_text(spec, sem, c.args[0], True) for c in r.calls if isinstance(c.func, ast.Attribute) and c.func.attr == 'write' and len(c.args) == 1]
     return got
@@ -416,7 +488,8 @@ def _check_table(ctx: RuleCtx, mod: Module, spec: Spec, tab: Table, what: str, o
     for w in tab.worlds():
         fired = T.cast(T.List[shape.XRow], tab.fire(w))
         for sem0 in _sems(w, spec.confs, spec.extra):
-            for pres in ((True, False) if spec.by_handler else (None,)):
+            by_handler = spec.by_handler and 'present' not in sem0 and any(r.handlers for r in T.cast(T.List[shape.XRow], tab.rows))
+            for pres in ((True, False) if by_handler else (None,)):
                 sem = dict(sem0) if pres is None else dict(sem0, present=pres)
                 if only is not None and not only(sem):
                     continue
@@ -424,7 +497,7 @@ def _check_table(ctx: RuleCtx, mod: Module, spec: Spec, tab: Table, what: str, o
                 if want is None:
                     continue
                 rows = fired
-                if spec.by_handler:
+                if by_handler:
                     early = [r for r in fired if not r.handlers and not r.in_try]
                     rows = early or [r for r in fired if bool(r.handlers) == (not pres)]
                 if len(rows) != 1:
@@ -439,6 +512,11 @@ def _check_table(ctx: RuleCtx, mod: Module, spec: Spec, tab: Table, what: str, o
                     for m_ in re.findall(r'\{\?([^{}]*)', t_ or '')})
     if blind:
         raise Undecided(f'{spec.qn}: {what}: operand(s) {blind} of the rendered text have no known role (helper the tables do not look into?)')
+    # closed world: a row that also calls something the tables cannot classify (a local callable, a helper) is not judged
+    opaque_calls = sorted({norm(c.func) for _, (r, got, want) in bad.items() for c in r.calls
+                           if not (isinstance(c.func, ast.Attribute) and (c.func.attr in ('write', 'add', 'update', 'deprecation', 'single_use', 'warning', 'debug', 'log')))})
+    if opaque_calls:
+        raise Undecided(f'{spec.qn}: {what}: a row that disagrees also calls {opaque_calls}, which the tables do not look into')
     for k, (r, got, want) in bad.items():
         node = r.path.events[-1].node if r.path.events else None
         ctx.violation(mod, spec.qn, f'rendering: {k}', f'{k}: the code gives [{_fmt(got)}] (row `{r!r}`); documented: [{_fmt(want)}]'[:900], node or mod.func(spec.qn))
@@ -475,7 +553,7 @@ def _callback_table(mod: Module) -> T.Tuple[str, ast.FunctionDef, Table, str]:
     for st in outer.body:
         if isinstance(st, (ast.Assign, ast.AnnAssign)) and not isinstance(getattr(st, 'value', None), ast.Call):
             base.stmt(st)       # aliases such as `cfg = confdata`
-    return qn, fn, shape.table(fn, handlers=False, name=qn, base=base.env), fn.args.args[0].arg
+    return qn, fn, _table(mod, fn, handlers=True, name=qn, base=base.env), fn.args.args[0].arg
 
 
 def _group_ref(e: ast.AST, m: str) -> T.Optional[T.Any]:
@@ -755,7 +833,7 @@ def r2(ctx: RuleCtx) -> None:
     ok = len(rets) == 1 and isinstance(rets[0].value, ast.Tuple) and len(rets[0].value.elts) == 2 and _single_def(fn, rets[0].value.elts[0]) is call
     miss = norm(rets[0].value.elts[1]) if ok else '?'
     cb = mod.func(f'do_replacement_meson.{cbname}')
-    recv = {norm(c.func.value) for c in ast.walk(cb) if isinstance(c, ast.Call) and isinstance(c.func, ast.Attribute) and c.func.attr == 'add'}  # type: ignore[attr-defined]
+    recv = {norm(c.func.value) for c in ast.walk(cb) if isinstance(c, ast.Call) and _added_elems(c)}  # type: ignore[attr-defined]
     if not ok or len(recv) != 1:
         raise Undecided('do_replacement_meson: expected a single `return <scan result>, <set of missing names>` and one set the callback adds to')
     second = _single_def(fn, rets[0].value.elts[1])       # type: ignore[union-attr]
@@ -811,7 +889,8 @@ def r3(ctx: RuleCtx) -> None:
     # ${VAR} / @VAR@ (cmake): bool -> 1 / 0
     qn = 'do_replacement_cmake.variable_get'
     fn = mod.func(qn)
-    tab = shape.table(fn, handlers=False, name=qn)
+    _guard_ok(fn, _confs(mod, qn))
+    tab = _table(mod, fn, handlers=True, name=qn)
     total += _check_table(ctx, mod, Spec(qn, _confs(mod, qn), _scalar_ref({'{VALUE|int}', '1/0'}, qn)), tab, '${VAR} per value type')
 
     # #mesondefine
@@ -851,7 +930,7 @@ def r3(ctx: RuleCtx) -> None:
                 raise Undecided('do_define_meson: boolean rows do not test the value')
             return _ret('#define {NAME}' if sem['truthy'] else '#undef {NAME}')
         return _ret('#define {NAME} {VALUE}')
-    tab = shape.table(fn, handlers=True, name=qn)
+    tab = _table(mod, fn, handlers=True, name=qn)
     total += _check_table(ctx, mod, Spec(qn, confs, ref_md, by_handler=True, line=ln, scans=scans), tab, '#mesondefine per value type')
 
     # #cmakedefine / #cmakedefine01
@@ -872,6 +951,11 @@ def r3(ctx: RuleCtx) -> None:
                 return ('bool01', v)
         if a.kind == 'is' and a.args[1] == 'None' and isinstance(_parse(a.args[0]), ast.Name):
             return 'ignore'         # `subproject is None`: only gates a FeatureNew notice
+        if a.kind == 'truth':
+            e = _parse(a.args[0])
+            if isinstance(e, ast.Call) and isinstance(e.func, ast.Attribute) and e.func.attr == 'startswith' and len(e.args) == 1 and isinstance(e.args[0], ast.Constant) \
+                    and isinstance(e.args[0].value, str) and e.args[0].value.endswith('cmakedefine01') and ln in names_in(e.func.value):
+                return ('bool01', v)        # whether the anchoring agrees with the dispatcher is R7's business
         return None
 
     def role_cm(op: shape.Op) -> T.Optional[str]:
@@ -884,7 +968,14 @@ def r3(ctx: RuleCtx) -> None:
                 return 'RHS'
         return None
 
+    def tokens_cm(expr: str) -> bool:
+        e = _parse(expr)
+        return isinstance(e, ast.Call) and isinstance(e.func, ast.Name) and e.func.id == 'len' and len(e.args) == 1 and isinstance(e.args[0], ast.Call) \
+            and isinstance(e.args[0].func, ast.Attribute) and e.args[0].func.attr == 'split' and ln in names_in(e.args[0])
+
     def ref_cd(sem: T.Dict[str, T.Any]) -> T.Optional[T.Dict[str, T.Any]]:
+        if _rel(sem, tokens_cm, '2') == 'lt':
+            return None             # a directive without a name: whether it is rejected cleanly is R9's business
         if 'bool01' not in sem:
             raise Undecided('do_define_cmake: no test for `cmakedefine01`')
         if not sem['present']:
@@ -894,7 +985,7 @@ def r3(ctx: RuleCtx) -> None:
         if not sem['bool01'] and not sem['truthy']:
             return _ret('/* #undef {NAME} */')
         return _ret('#define {NAME} {RHS}')
-    tab = shape.table(fn, handlers=True, name=qn)
+    tab = _table(mod, fn, handlers=True, name=qn)
     total += _check_table(ctx, mod, Spec(qn, confs, ref_cd, extra_cm, role_cm, by_handler=True, line=ln, scans=scans), tab, '#cmakedefine[01] per value')
     calls = [c for c in ast.walk(fn) if isinstance(c, ast.Call) and norm(c.func) == 'FeatureNew.single_use']
     ctx.note(f'do_define_cmake: {len(calls)} FeatureNew notice(s) ignored')
@@ -942,13 +1033,22 @@ def _cmake_rhs(ctx: RuleCtx, mod: Module, qn: str, outer: str, ln: str, call: as
         env[nm] = a
     for k in call.keywords:
         env[T.cast(str, k.arg)] = k.value
-    tab = shape.table(fn, handlers=True, unroll=1, name=qn, base=env)
+    tab = _table(mod, fn, handlers=True, unroll=1, name=qn, base=env)
     n = 0
     seen01 = False
     loop_rows = 0
     token_roles: T.Set[bool] = set()
     for r in T.cast(T.List[shape.XRow], tab.rows):
-        b01 = [v for a, v in r.conds.items() if a.kind == 'in' and isinstance(_parse(a.args[0]), ast.Constant) and _parse(a.args[0]).value == 'cmakedefine01']  # type: ignore[attr-defined]
+        def is01(a: Atom) -> bool:
+            if a.kind == 'in':
+                e_ = _parse(a.args[0])
+                return isinstance(e_, ast.Constant) and e_.value == 'cmakedefine01'
+            if a.kind == 'truth':
+                e_ = _parse(a.args[0])
+                return isinstance(e_, ast.Call) and isinstance(e_.func, ast.Attribute) and e_.func.attr == 'startswith' and len(e_.args) == 1 and \
+                    isinstance(e_.args[0], ast.Constant) and isinstance(e_.args[0].value, str) and e_.args[0].value.endswith('cmakedefine01')
+            return False
+        b01 = [v for a, v in r.conds.items() if is01(a)]
         if len(b01) != 1:
             raise Undecided(f'{qn}: row without the cmakedefine01 test: {r!r}')
         if r.outcome[0] != 'return' or r.value is None:
@@ -978,6 +1078,30 @@ def _cmake_rhs(ctx: RuleCtx, mod: Module, qn: str, outer: str, ln: str, call: as
         ctx.require(isinstance(v.func.value, ast.Constant) and v.func.value.value == ' ', f'{qn}: tokens joined by one blank', mod, qn, v.func.value,
                     f'the tokens of the right-hand side are joined by {norm(v.func.value)}', r.path.events[-1].node)
         elems: T.List[ast.AST] = []
+        comp = v.args[0]
+        if isinstance(comp, (ast.GeneratorExp, ast.ListComp)) and len(comp.generators) == 1 and not comp.generators[0].ifs and isinstance(comp.generators[0].target, ast.Name):
+            # ' '.join(<value if set else token> for token in tokens[2:])
+            g = comp.generators[0]
+            tv = g.target.id
+            elem = ast.Call(func=ast.Name(id='__element__', ctx=ast.Load()), args=[g.iter], keywords=[])
+            spec = Spec(qn, confs, lambda s_: None)
+            body = shape._Sub({tv: elem}).visit(shape.copy.deepcopy(comp.elt))
+            ps = [p_ for p_ in shape.parts(body)]
+            ok_c = False
+            if len(ps) == 1 and isinstance(ps[0], shape.Cond):
+                a_, pol = tables_canon(ps[0].test, True)
+                if a_.kind == 'in' and a_.args[1] in confs and a_.args[0] == norm(elem):
+                    setp, unsetp = (ps[0].then, ps[0].other) if pol else (ps[0].other, ps[0].then)
+                    s_ok = len(setp) == 1 and isinstance(setp[0], shape.Op) and not setp[0].conv and (_as_value(setp[0].node, confs) or ('', 1)) == (norm(elem), 0)
+                    u_ok = len(unsetp) == 1 and isinstance(unsetp[0], shape.Op) and not unsetp[0].conv and norm(unsetp[0].node) == norm(elem)
+                    ok_c = True
+                    token_roles.update({True, False})
+                    loop_rows += 2
+                    ctx.require(s_ok and u_ok, f'{qn}: every token of `{norm(g.iter)}` -> its value when set, else the token', mod, qn, 'rendering: cmakedefine tokens (comprehension)',
+                                f'a token of the right-hand side is rendered as `{short(comp.elt)}`; documented: the value when the token is a set name, else the token itself', r.path.events[-1].node)
+            if not ok_c:
+                raise Undecided(f'{qn}: token list `{short(comp)}`: comprehension shape not understood')
+            continue
 
         def flat(x: ast.AST) -> bool:
             if isinstance(x, ast.BinOp) and isinstance(x.op, ast.Add):
@@ -987,6 +1111,20 @@ def _cmake_rhs(ctx: RuleCtx, mod: Module, qn: str, outer: str, ln: str, call: as
                 return True
             if isinstance(x, ast.Call) and isinstance(x.func, ast.Name) and x.func.id == '__maybe__':
                 return True
+            if isinstance(x, ast.Call) and isinstance(x.func, ast.Name) and x.func.id == '__mutated__' and len(x.args) == 2:
+                # x.append(e) / x.extend([..]) recorded along the path
+                m_ = x.args[1]
+                if not flat(x.args[0]) or not (isinstance(m_, ast.Call) and isinstance(m_.func, ast.Attribute) and len(m_.args) == 1 and not m_.keywords):
+                    return False
+                if m_.func.attr == 'append':
+                    elems.append(m_.args[0])
+                    return True
+                if m_.func.attr == 'extend' and isinstance(m_.args[0], (ast.List, ast.Tuple)):
+                    elems.extend(m_.args[0].elts)
+                    return True
+                return False
+            if isinstance(x, ast.Call) and isinstance(x.func, ast.Name) and x.func.id == 'list' and not x.args:
+                return True
             return False
         if not flat(v.args[0]):
             raise Undecided(f'{qn}: token list `{short(v.args[0])}` is not built by += [..]')
@@ -995,19 +1133,22 @@ def _cmake_rhs(ctx: RuleCtx, mod: Module, qn: str, outer: str, ln: str, call: as
             raise Undecided(f'{qn}: {len(iters)} iteration(s) but {len(elems)} element(s) appended')
         for el, it in zip(elems, iters):
             loop_rows += 1
-            token_roles.add(bool(r.handlers))
+            # is the token a set name on this row?  EAFP: the KeyError handler was entered; LBYL: the membership atom
+            member = [v_ for a_, v_ in r.conds.items() if a_.kind == 'in' and a_.args[0].startswith('__element__(') and a_.args[1] in confs]
+            unset = bool(r.handlers) or (bool(member) and not member[-1])
+            token_roles.add(unset)
             src = norm(it.node.iter)  # type: ignore[attr-defined]
             tok = f'__element__({norm(shape.PathEnv(r.env).close(it.node.iter))})'  # type: ignore[attr-defined]
             ps = [p for p in shape.flatten(shape.parts(el)) if not (isinstance(p, shape.Lit) and p.text == '')]
             good = False
             if len(ps) == 1 and isinstance(ps[0], shape.Op) and not ps[0].conv:
                 val = _as_value(ps[0].node, confs)
-                if r.handlers:
+                if unset:
                     good = norm(ps[0].node).startswith('__element__(')
                 else:
                     good = val is not None and val[1] == 0 and val[0].startswith('__element__(')
-            ctx.require(good, f'{qn}: token of `{src}` -> ' + ('kept (unset)' if r.handlers else 'its value (set)'), mod, qn,
-                        'rendering: cmakedefine token ' + ('unset' if r.handlers else 'set'),
+            ctx.require(good, f'{qn}: token of `{src}` -> ' + ('kept (unset)' if unset else 'its value (set)'), mod, qn,
+                        'rendering: cmakedefine token ' + ('unset' if unset else 'set'),
                         f'a token of the right-hand side is rendered as `{short(el)}`; documented: the value when the token is a set name, else the token itself ({tok})',
                         r.path.events[-1].node)
     ctx.require(seen01, f'{qn}: a row for #cmakedefine01 exists', mod, qn, 'rendering: cmakedefine01 row', 'no row handles #cmakedefine01')
@@ -1026,7 +1167,7 @@ def _header_forms(ctx: RuleCtx, mod: Module) -> int:
     k = loop.target.id
     i = fn.body.index(loop)
     # prefix table: '#' for c, '%' for nasm (Configuration.md / configure_file output_format)
-    pre = shape.table(fn, body=fn.body[:i], handlers=False, name=qn + ':prelude')
+    pre = _table(mod, fn, body=fn.body[:i], handlers=False, name=qn + ':prelude')
     fmt_p = [a.arg for a in fn.args.args if 'Literal' in norm(a.annotation or ast.Constant(value=''))]
     if len(fmt_p) != 1:
         raise Undecided(f'{qn}: cannot identify the output format parameter')
@@ -1075,12 +1216,12 @@ def _header_forms(ctx: RuleCtx, mod: Module) -> int:
                 raise Undecided(f'{qn}: boolean rows do not test the value')
             return {'kind': 'fall', 'writes': head + ['{P}define {NAME}\n\n' if sem['truthy'] else '{P}undef {NAME}\n\n']}
         return {'kind': 'fall', 'writes': head + ['{P}define {NAME} {VALUE}\n\n']}
-    tab = shape.table(fn, body=loop.body, handlers=False, name=qn + ':entry')
+    tab = _table(mod, fn, body=loop.body, handlers=False, name=qn + ':entry', base=_aliases_before(fn, loop))
     sp = Spec(qn, confs, ref, role=role)
     # inside the loop body the key is the loop variable
     n += _check_table(ctx, mod, sp, tab, 'header entry per value type')
     # closing #endif: only for c with a guard macro
-    post = shape.table(fn, body=fn.body[i + 1:], handlers=False, name=qn + ':tail')
+    post = _table(mod, fn, body=fn.body[i + 1:], handlers=False, name=qn + ':tail')
     for w in post.worlds():
         rows = T.cast(T.List[shape.XRow], post.fire(w))
         if len(rows) != 1:
@@ -1106,7 +1247,66 @@ def _header_forms(ctx: RuleCtx, mod: Module) -> int:
 LINE_LOOPS = {'do_conf_str_meson': {'do_define_meson', 'do_replacement_meson'}, 'do_conf_str_cmake': {'do_define_cmake', 'do_replacement_cmake'}}
 
 
+def _loop_site(mod: Module, qn: str) -> T.Tuple[str, T.Dict[str, T.Any]]:
+    """Where the per-line loop of qn lives: in qn itself, or in a shared driver that qn ends with (`return driver(data, .., f, g, h)`);
+    then the driver's callable parameters are bound to the functions / closures / lambdas passed at that call."""
+    fn = mod.func(qn)
+    if any(isinstance(s_, ast.For) for s_ in fn.body):
+        return qn, {}
+    rets = [s_ for s_ in fn.body if isinstance(s_, ast.Return)]
+    if len(rets) == 1 and isinstance(rets[0].value, ast.Call) and isinstance(rets[0].value.func, ast.Name) and mod.has_func(rets[0].value.func.id):
+        host = rets[0].value.func.id
+        g = mod.func(host)
+        if any(isinstance(s_, ast.For) for s_ in g.body):
+            bound = _bind_call(rets[0].value, g)
+            if bound is None:
+                raise Undecided(f'{qn}: cannot bind the arguments of `{short(rets[0].value)}`')
+            callables: T.Dict[str, T.Any] = {}
+            for p_, a_ in bound.items():
+                if isinstance(a_, ast.Lambda):
+                    callables[p_] = a_
+                elif isinstance(a_, ast.Name) and mod.has_func(f'{qn}.{a_.id}'):
+                    callables[p_] = f'{qn}.{a_.id}'
+                elif isinstance(a_, ast.Name) and mod.has_func(a_.id):
+                    callables[p_] = a_.id
+                elif isinstance(a_, ast.Name) and a_.id in {x.arg for x in fn.args.args}:
+                    callables[p_] = ('param', a_.id)
+            return host, callables
+    raise Undecided(f'{qn}: no per-line loop here and no shared driver called at the end')
+
+
+def _callable_transformer(mod: Module, target: T.Any) -> T.Optional[str]:
+    """The module-level transformer a callable hands its argument to: every return is `T(.., <own parameter>, ..)` for one T."""
+    if isinstance(target, tuple):
+        return None
+    if isinstance(target, ast.Lambda):
+        rets_v: T.List[T.Optional[ast.AST]] = [target.body]
+        own = {a.arg for a in target.args.args}
+    else:
+        f_ = mod.func(target)
+        own = {a.arg for a in f_.args.args}
+        if '.' not in target and own:
+            # a module-level function passed directly is the transformer itself
+            return target
+        rets_v = [n.value for n in ast.walk(f_) if isinstance(n, ast.Return)]
+    names = set()
+    for v_ in rets_v:
+        if not (isinstance(v_, ast.Call) and isinstance(v_.func, ast.Name) and mod.has_func(v_.func.id) and
+                any(isinstance(a_, ast.Name) and a_.id in own for a_ in list(v_.args) + [k.value for k in v_.keywords])):
+            return None
+        names.add(v_.func.id)
+    return names.pop() if len(names) == 1 else None
+
+
 def _line_loop(ctx: RuleCtx, mod: Module, qn: str) -> T.Set[str]:
+    outer_qn = qn
+    qn, callables = _loop_site(mod, outer_qn)
+    via = {p_: _callable_transformer(mod, t_) for p_, t_ in callables.items()}
+
+    def callee_of(name: str) -> T.Optional[str]:
+        if name in via:
+            return via[name]
+        return name if mod.has_func(name) else None
     fn = mod.func(qn)
     params = [a.arg for a in fn.args.args]
     rets = [s for s in ast.walk(fn) if isinstance(s, ast.Return)]
@@ -1175,17 +1375,20 @@ def _line_loop(ctx: RuleCtx, mod: Module, qn: str) -> T.Set[str]:
                 tg = st.targets[0]
                 first = tg.elts[0] if isinstance(tg, ast.Tuple) and tg.elts else tg
                 val = st.value
-                if isinstance(val, ast.Call) and isinstance(val.func, ast.Name) and mod.has_func(val.func.id):
+                if isinstance(val, ast.Call) and isinstance(val.func, ast.Name) and (mod.has_func(val.func.id) or val.func.id in via):
                     arg_tracked = [a for a in list(val.args) + [k.value for k in val.keywords] if isinstance(a, ast.Name) and a.id in chain]
                     if arg_tracked and isinstance(first, ast.Name):
                         if len(arg_tracked) != 1:
                             raise Undecided(f'{qn}: {short(st)} receives the line twice')
-                        chain[first.id] = chain[arg_tracked[0].id] + [val.func.id]
-                        used.add(val.func.id)
+                        tname = callee_of(val.func.id)
+                        if tname is None:
+                            raise Undecided(f'{qn}: `{short(st)}` calls `{val.func.id}`, a callable whose transformer cannot be identified')
+                        chain[first.id] = chain[arg_tracked[0].id] + [tname]
+                        used.add(tname)
                         if isinstance(tg, ast.Tuple):
                             for e in tg.elts[1:]:
                                 if isinstance(e, ast.Name):
-                                    aux[e.id] = val.func.id
+                                    aux[e.id] = tname
                         continue
                 for nm in ([first.id] if isinstance(first, ast.Name) else []):
                     if nm in chain:
@@ -1196,13 +1399,14 @@ def _line_loop(ctx: RuleCtx, mod: Module, qn: str) -> T.Set[str]:
                         appended.append((a0.id, chain[a0.id]))
                         continue
                     targs = [x for x in list(a0.args) + [k.value for k in a0.keywords] if isinstance(x, ast.Name) and x.id in chain] if isinstance(a0, ast.Call) else []
-                    if isinstance(a0, ast.Call) and isinstance(a0.func, ast.Name) and mod.has_func(a0.func.id) and len(targs) == 1:
+                    tname = callee_of(a0.func.id) if isinstance(a0, ast.Call) and isinstance(a0.func, ast.Name) else None
+                    if tname is not None and len(targs) == 1:
                         # append(transformer(line, ..)): the transformer's result is appended directly
                         src_nm = targs[0].id  # type: ignore[attr-defined]
-                        if mod.func(a0.func.id).returns is not None and norm(mod.func(a0.func.id).returns) != 'str':
-                            raise Undecided(f'{qn}: `{short(st)}` appends the result of {a0.func.id}, which is not annotated to return a str')
-                        used.add(a0.func.id)
-                        appended.append((src_nm, chain[src_nm] + [a0.func.id]))
+                        if mod.func(tname).returns is not None and norm(mod.func(tname).returns) != 'str':
+                            raise Undecided(f'{qn}: `{short(st)}` appends the result of {tname}, which is not annotated to return a str')
+                        used.add(tname)
+                        appended.append((src_nm, chain[src_nm] + [tname]))
                     else:
                         raise Undecided(f'{qn}: `{short(st)}` appends something that is not the line variable')
             elif isinstance(st, ast.Expr) and isinstance(st.value, ast.Call) and isinstance(st.value.func, ast.Attribute) and norm(st.value.func.value) == miss_name \
@@ -1373,6 +1577,8 @@ def _r4c_define(ctx: RuleCtx, mod: Module, qn: str) -> None:
     if not ld.returns:
         raise Undecided(f'{qn}: no return statement')
     claims: T.List[str] = []
+    scope: T.List[str] = []
+    counts: T.List[str] = []
     shown: T.List[str] = []
     node: T.Optional[ast.AST] = None
     for tag, aspect in (('T', 'line terminator'), ('I', 'indentation')):
@@ -1383,16 +1589,20 @@ def _r4c_define(ctx: RuleCtx, mod: Module, qn: str) -> None:
         if not ind:
             ctx.ok(f'{qn}: every one of the {len(ld.returns)} returned texts depends on the {aspect} of `{line[0]}` (data flow from the parameter)')
             continue
-        claims.append(f'{aspect} ({len(ind)} of {len(ld.returns)} returns)')
+        claims.append(aspect)
+        scope.append('every' if len(ind) == len(ld.returns) else 'some')
+        counts.append(f'{aspect}: {len(ind)} of {len(ld.returns)} returns')
         node = node or ind[0]
         for st in ind[:2]:
             tail = [p for p in shape.flatten(shape.parts(st.value))] if st.value is not None else []
             lit = f', it ends with the constant {tail[-1].text!r}' if tag == 'T' and tail and isinstance(tail[-1], shape.Lit) else ''
             shown.append(f'`{short(st, 70)}` cannot depend on the {aspect}{lit}')
     if claims:
-        ctx.violation(mod, qn, 'returned text independent of the input line: ' + '; '.join(claims),
-                      f'{qn}: no data or control flow leads from the {" / ".join(c.split(" (")[0] for c in claims)} of `{line[0]}` to the returned text '
-                      f'[{"; ".join(claims)}]: two template lines that differ only there give the same output, so it is not copied; e.g. ' + '; '.join(shown), node)
+        # the key names the aspects and whether every returned text or only some are affected - not how the returns are spelled or counted
+        how = 'every returned text' if set(scope) == {'every'} else 'some returned text'
+        ctx.violation(mod, qn, f'{how} independent of the input line: ' + '; '.join(claims),
+                      f'{qn}: no data or control flow leads from the {" / ".join(claims)} of `{line[0]}` to the returned text '
+                      f'[{"; ".join(counts)}]: two template lines that differ only there give the same output, so it is not copied; e.g. ' + '; '.join(shown), node)
 
 
 def r4c(ctx: RuleCtx) -> None:
@@ -1478,7 +1688,7 @@ def r5(ctx: RuleCtx) -> None:
     k = loop.target.id
     n = 0
     kinds_seen: T.Set[T.FrozenSet[str]] = set()
-    etab = shape.table(fn, body=loop.body, handlers=False, name='_dump_c_header:entry')
+    etab = _table(mod, fn, body=loop.body, handlers=False, name='_dump_c_header:entry', base=_aliases_before(fn, loop))
     for r in T.cast(T.List[shape.XRow], etab.rows):
         p = r.path
         where = p.describe()[:140]
@@ -1753,10 +1963,31 @@ def _indent_sense(e: ast.AST, var: str, mod: Module, qn: str) -> str:
     return 'unknown'
 
 
+def _gap_anchored(e: ast.AST, line: str) -> T.Optional[ast.AST]:
+    """A `startswith(<constant>)` test that requires the characters right after the first character of the left-stripped line:
+    `line.lstrip().startswith('#x..')` or `line.lstrip()[1:].startswith('x..')` (x not blank)."""
+    def stripped(x: ast.AST) -> bool:
+        return isinstance(x, ast.Call) and isinstance(x.func, ast.Attribute) and x.func.attr in ('lstrip', 'strip') and not x.args and \
+            isinstance(x.func.value, ast.Name) and x.func.value.id == line
+    for c in ast.walk(e):
+        if isinstance(c, ast.Call) and isinstance(c.func, ast.Attribute) and c.func.attr == 'startswith' and len(c.args) == 1 and \
+                isinstance(c.args[0], ast.Constant) and isinstance(c.args[0].value, str):
+            k = c.args[0].value
+            recv = c.func.value
+            if stripped(recv) and len(k) > 1 and not k[0].isspace() and not k[1].isspace():
+                return c
+            if isinstance(recv, ast.Subscript) and isinstance(recv.slice, ast.Slice) and isinstance(recv.slice.lower, ast.Constant) and recv.slice.lower.value == 1 \
+                    and recv.slice.upper is None and stripped(recv.value) and k and not k[0].isspace():
+                return c
+    return None
+
+
 def r7(ctx: RuleCtx) -> None:
     mod = ctx.repo.module(U)
     verdicts: T.Dict[str, str] = {}
-    for qn, known in LINE_LOOPS.items():
+    tolerant: T.Dict[str, str] = {}
+    for outer_qn, known in LINE_LOOPS.items():
+        qn, callables = _loop_site(mod, outer_qn)
         fn = mod.func(qn)
         loops = [s for s in fn.body if isinstance(s, ast.For) and isinstance(s.target, ast.Name)]
         if len(loops) != 1:
@@ -1764,13 +1995,26 @@ def r7(ctx: RuleCtx) -> None:
         loop = loops[0]
         var = loop.target.id  # type: ignore[attr-defined]
         define = sorted(k for k in known if 'define' in k)
-        pre = shape.PathEnv()
-        for st in fn.body[:fn.body.index(loop)]:
-            if isinstance(st, (ast.Assign, ast.AnnAssign)):
-                pre.stmt(st)            # constants such as the directive token
-        tab = shape.table(fn, body=loop.body, handlers=False, name=qn + ':loop', base={k: v for k, v in pre.env.items() if isinstance(v, ast.Constant)})
+        define_names = set(define) | {p_ for p_, t_ in callables.items() if _callable_transformer(mod, t_) in define}
+
+        def consts(f_: ast.FunctionDef, upto: T.Optional[ast.stmt]) -> T.Dict[str, ast.AST]:
+            pe = shape.PathEnv()
+            for st in f_.body[:f_.body.index(upto)] if upto is not None else f_.body:
+                if isinstance(st, (ast.Assign, ast.AnnAssign)):
+                    pe.stmt(st)            # constants such as the directive token
+            return {k: v for k, v in pe.env.items() if isinstance(v, ast.Constant)}
+        base: T.Dict[str, ast.AST] = consts(fn, loop)
+        if callables:
+            # predicates passed into a shared driver: closures / lambdas of the calling function, inlined where they are one expression
+            ofn = mod.func(outer_qn)
+            oc = consts(ofn, None)
+            for p_, t_ in callables.items():
+                lam = t_ if isinstance(t_, ast.Lambda) else (shape.as_lambda(mod.func(t_), oc) if isinstance(t_, str) else None)
+                if lam is not None:
+                    base[p_] = shape.PathEnv(oc).close(lam) if isinstance(t_, ast.Lambda) else lam
+        tab = _table(mod, fn, body=loop.body, handlers=False, name=qn + ':loop', base=base)
         rows = [r for r in T.cast(T.List[shape.XRow], tab.rows)
-                if any(isinstance(c, ast.Call) and isinstance(c.func, ast.Name) and c.func.id in define for ev in r.path.events if ev.node is not None and ev.kind == 'stmt'
+                if any(isinstance(c, ast.Call) and isinstance(c.func, ast.Name) and c.func.id in define_names for ev in r.path.events if ev.node is not None and ev.kind == 'stmt'
                        for c in ast.walk(ev.node))]
         if not rows:
             raise Undecided(f'{qn}: no path of the loop calls {define}')
@@ -1797,9 +2041,286 @@ def r7(ctx: RuleCtx) -> None:
                 ctx.ok(f'{qn}: dispatch test `{txt}` cannot depend on the leading blanks of the line')
         if unknown and worst != 'sensitive':
             raise Undecided(f'{qn}: cannot tell whether the dispatch test(s) {unknown} depend on the indentation of the line')
-        verdicts[qn] = worst
+        verdicts[outer_qn] = worst
+        for txt, e in atoms.items():
+            for c_ in ast.walk(e):
+                if isinstance(c_, ast.Call) and isinstance(c_.func, ast.Attribute) and c_.func.attr == 'startswith' and isinstance(c_.func.value, ast.Call) and \
+                        isinstance(c_.func.value.func, ast.Attribute) and c_.func.value.func.attr in ('lstrip', 'strip') and not c_.func.value.args and \
+                        isinstance(c_.func.value.func.value, ast.Subscript) and isinstance(c_.func.value.func.value.slice, ast.Slice) and \
+                        isinstance(c_.func.value.func.value.slice.lower, ast.Constant) and c_.func.value.func.value.slice.lower.value == 1:
+                    tolerant[outer_qn] = short(c_, 80)
+    # dispatcher / transformer agreement on the gap after '#': where the dispatch test skips blanks after the first character
+    # (`stripped[1:].lstrip().startswith(tok)`), a test inside the define transformer must not be anchored across that gap
+    for outer_qn, known in LINE_LOOPS.items():
+        tol = tolerant.get(outer_qn)
+        if not tol:
+            continue
+        for tq in sorted(k for k in known if 'define' in k):
+            tf = mod.func(tq)
+            lp = [a.arg for a in tf.args.args if a.annotation is not None and norm(a.annotation) == 'str']
+            if len(lp) != 1:
+                continue
+            ttab = _table(mod, tf, handlers=True, name=tq)
+            seen_a: T.Set[str] = set()
+            for r in ttab.rows:
+                for a in r.conds:
+                    if a.kind != 'truth' or a.args[0] in seen_a:
+                        continue
+                    seen_a.add(a.args[0])
+                    bad = _gap_anchored(_parse(a.args[0]), lp[0])
+                    if bad is not None:
+                        ctx.violation(mod, tq, bad, f'`{short(bad)}` in {tq} is anchored across the first character of the stripped line, but the dispatch test `{tol}` '
+                                      f'skips blanks after it: a directive written with a gap (`#  cmakedefine01 X`) is sent to {tq} and then not recognised by this test', tf)
+                    elif lp[0] in names_in(_parse(a.args[0])):
+                        ctx.ok(f'{tq}: test `{short(a.args[0], 60)}` is not anchored across the gap the dispatcher tolerates')
+    # a dispatcher that tolerates leading blanks hands indented lines to the define transformer: there, a fixed-offset index / slice into the
+    # text that still starts with the indentation reads a blank where it expects the directive
+    for outer_qn, known in LINE_LOOPS.items():
+        if verdicts.get(outer_qn) != 'blind':
+            continue
+        for tq in sorted(k for k in known if 'define' in k):
+            for q2 in [tq] + sorted(q for q in mod.funcs() if q.startswith(tq + '.')):
+                f2 = mod.func(q2)
+                lp2 = [a.arg for a in f2.args.args if a.annotation is not None and norm(a.annotation) == 'str']
+                if len(lp2) != 1:
+                    continue
+                ld = LineDep(mod, q2, lp2[0])
+                seen_s: T.Set[str] = set()
+                for sub in [x for x in ast.walk(f2) if isinstance(x, ast.Subscript) and mod.enclosing_func(x) == q2]:
+                    sl = sub.slice
+                    fixed = (isinstance(sl, ast.Constant) and isinstance(sl.value, int)) or \
+                        (isinstance(sl, ast.Slice) and isinstance(sl.lower, ast.Constant) and isinstance(sl.lower.value, int) and sl.lower.value >= 1 and sl.step is None)
+                    if not fixed or norm(sub) in seen_s:
+                        continue
+                    if 'I' in ld.tags(sub.value):
+                        seen_s.add(norm(sub))
+                        ctx.violation(mod, q2, f'{norm(sub)} on the unstripped line', f'`{short(sub)}` in {q2} takes a fixed offset into `{short(sub.value, 40)}`, which still '
+                                      f'begins with the leading blanks of the line, while the dispatch test of {outer_qn} strips them first: for an indented directive the offset '
+                                      'hits a blank instead of the `#` (with a gap after `#`, `  # cmakedefine A`, the directive word is then taken for the variable name)', sub)
+                    elif lp2[0] in names_in(sub.value):
+                        seen_s.add(norm(sub))
+                        ctx.ok(f'{q2}: `{short(sub)}` does not index into the indentation')
     ctx.require(len(set(verdicts.values())) == 1, f'sibling loops agree on tolerating leading blanks: {verdicts}', mod, 'do_conf_str', 'sibling dispatch tests',
                 f'the two per-line loops disagree on indented directives: {verdicts}')
+
+
+# ---------------------------------------------------------------------------------------------
+# R8  cmake formats: an @name@ placeholder has a non-empty name (decision table of the @ arm of the scanner)
+# ---------------------------------------------------------------------------------------------
+def _lin(e: ast.AST) -> T.Optional[T.Tuple[str, int]]:
+    """`x`, `x + 2`, `x - 1`, `3` as (base text, constant)."""
+    if isinstance(e, ast.Constant) and isinstance(e.value, int) and not isinstance(e.value, bool):
+        return ('', e.value)
+    if isinstance(e, ast.BinOp) and isinstance(e.op, (ast.Add, ast.Sub)):
+        l, r = _lin(e.left), _lin(e.right)
+        if l is not None and r is not None:
+            if r[0] == '':
+                return (l[0], l[1] + (r[1] if isinstance(e.op, ast.Add) else -r[1]))
+            if l[0] == '' and isinstance(e.op, ast.Add):
+                return (r[0], l[1] + r[1])
+        return None
+    if isinstance(e, (ast.Name, ast.Attribute, ast.Call, ast.Subscript)):
+        return (norm(e), 0)
+    return None
+
+
+def r8(ctx: RuleCtx) -> None:
+    mod = ctx.repo.module(U)
+    host = 'do_replacement_cmake'
+    mod.func(host)
+    confs = _confs(mod, host)
+    # the lookup helper, by role: a function in the scanner that calls <conf>.get(<own parameter>)
+    lookups = set()
+    for q, f in mod.funcs().items():
+        if q == host or q.startswith(host + '.'):
+            own = {a.arg for a in f.args.args}
+            for c in ast.walk(f):
+                if isinstance(c, ast.Call) and isinstance(c.func, ast.Attribute) and c.func.attr == 'get' and isinstance(c.func.value, ast.Name) and \
+                        c.func.value.id in confs and len(c.args) == 1 and isinstance(c.args[0], ast.Name) and c.args[0].id in own and mod.enclosing_func(c) == q:
+                    lookups.add(q.split('.')[-1])
+    if not lookups:
+        raise Undecided(f'{host}: no helper that looks a name up in the configuration data')
+    n = 0
+    for q, f in mod.funcs().items():
+        if not (q == host or q.startswith(host + '.')):
+            continue
+        text_p = {a.arg for a in f.args.args if a.annotation is not None and norm(a.annotation) == 'str'}
+        for node in ast.walk(f):
+            if not isinstance(node, ast.If) or mod.enclosing_func(node) != q:
+                continue
+            at = [c for c in ast.walk(node.test) if isinstance(c, ast.Compare) and len(c.ops) == 1 and isinstance(c.ops[0], ast.Eq) and
+                  any(isinstance(x, ast.Constant) and x.value == '@' for x in (c.left, c.comparators[0])) and
+                  any(isinstance(x, ast.Subscript) and isinstance(x.value, ast.Name) and x.value.id in text_p and not isinstance(x.slice, ast.Slice) for x in (c.left, c.comparators[0]))]
+            at += [c for c in ast.walk(node.test) if isinstance(c, ast.Call) and isinstance(c.func, ast.Attribute) and c.func.attr == 'startswith' and len(c.args) == 2
+                   and isinstance(c.args[0], ast.Constant) and c.args[0].value == '@' and isinstance(c.func.value, ast.Name) and c.func.value.id in text_p]
+            if not at or isinstance(node.test, ast.BoolOp) and isinstance(node.test.op, ast.Or):
+                continue
+            tab = _table(mod, f, body=node.body, handlers=False, unroll=1, name=q + ':@-arm')
+            for r in T.cast(T.List[shape.XRow], tab.rows):
+                exprs = list(r.env.values()) + list(r.calls) + ([r.value] if r.value is not None else [])
+                names = {norm(c.args[0]): c.args[0] for e_ in exprs for c in ast.walk(e_)
+                         if isinstance(c, ast.Call) and isinstance(c.func, ast.Name) and c.func.id in lookups and len(c.args) == 1}
+                for txt, arg in names.items():
+                    if not (isinstance(arg, ast.Subscript) and isinstance(arg.slice, ast.Slice) and arg.slice.step is None and isinstance(arg.value, ast.Name)
+                            and arg.slice.lower is not None and arg.slice.upper is not None):
+                        raise Undecided(f'{q}: the name looked up in the @ arm is `{txt}`, not a slice of the scanned text')
+                    lo, hi = _lin(arg.slice.lower), _lin(arg.slice.upper)
+                    if lo is None or hi is None or lo[0] == hi[0]:
+                        raise Undecided(f'{q}: slice bounds of `{txt}` are not of the form name +/- constant')
+                    need = 1 + lo[1] - hi[1]            # hi.base - lo.base >= need  <=>  the slice is non-empty
+                    best: T.Optional[int] = None
+                    direct = False
+                    for a, v in r.conds.items():
+                        if a.kind == 'truth' and a.args[0] == txt and v:
+                            direct = True
+                        if a.kind != 'cmp':
+                            continue
+                        x, y = _lin(_parse(a.args[1])), _lin(_parse(a.args[2]))
+                        if x is None or y is None:
+                            continue
+                        facts: T.List[T.Tuple[T.Tuple[str, int], T.Tuple[str, int], int]] = []   # (p, q, d): q - p >= d
+                        if a.args[0] == 'lt':
+                            facts.append((x, y, 1) if v else (y, x, 0))
+                        elif a.args[0] == 'eq' and v:
+                            facts += [(x, y, 0), (y, x, 0)]
+                        for p_, q_, d in facts:
+                            if (q_[0], p_[0]) == (hi[0], lo[0]):
+                                b = d + p_[1] - q_[1]
+                                best = b if best is None else max(best, b)
+                    n += 1
+                    what = f'{q}: @ arm: the name `{txt}` is not empty on the path [{r.path.describe()[:90]}]'
+                    if direct or (best is not None and best >= need):
+                        ctx.ok(what)
+                    elif best is not None:
+                        ctx.violation(mod, q, f'name slice {txt} may be empty', f'in the @ arm the name `{txt}` is looked up although the path conditions only give '
+                                      f'{hi[0]} - {lo[0]} >= {best} (needed: >= {need}): for {hi[0]} == {lo[0]} + {best} the name is empty, i.e. `@@` is taken for a placeholder '
+                                      'and replaced by nothing (and "" is reported as a missing variable)', r.path.events[-1].node if r.path.events else node)
+                    else:
+                        raise Undecided(f'{q}: no path condition relates the bounds of `{txt}`')
+    ctx.floor('cmake scanner: name look-ups in the @ arm', n, 1)
+
+
+# ---------------------------------------------------------------------------------------------
+# R9  tokens of a directive line are only indexed under a length guard (exception escape, K9; sibling agreement with #mesondefine)
+# ---------------------------------------------------------------------------------------------
+def r9(ctx: RuleCtx) -> None:
+    mod = ctx.repo.module(U)
+    n = 0
+    unguarded: T.Dict[T.Tuple[str, str], T.Tuple[ast.Subscript, str, T.List[str]]] = {}
+    for tq in sorted({k for known in LINE_LOOPS.values() for k in known if 'define' in k}):
+        fn = mod.func(tq)
+        lp = [a.arg for a in fn.args.args if a.annotation is not None and norm(a.annotation) == 'str']
+        if len(lp) != 1:
+            raise Undecided(f'{tq}: cannot identify the line parameter')
+        tab = _table(mod, fn, handlers=True, name=tq)
+        for r in T.cast(T.List[shape.XRow], tab.rows):
+            pe = shape.PathEnv()
+            # walk the path again: at every statement, the token accesses it makes and the length facts known so far
+            facts: T.Dict[str, int] = {}      # closed token expression -> proven lower bound of its length
+            guarded_try = False
+            for ev in r.path.events:
+                if ev.node is None:
+                    continue
+                if ev.kind == 'cond':
+                    a, v = tables_canon(pe.close(ev.node), bool(ev.val))
+                    if a.kind == 'cmp':
+                        for x, y, first in ((a.args[1], a.args[2], True), (a.args[2], a.args[1], False)):
+                            ex, ey = _parse(x), _parse(y)
+                            if isinstance(ex, ast.Call) and isinstance(ex.func, ast.Name) and ex.func.id == 'len' and len(ex.args) == 1 and \
+                                    isinstance(ey, ast.Constant) and isinstance(ey.value, int):
+                                tok, c = norm(ex.args[0]), ey.value
+                                lb: T.Optional[int] = None
+                                if a.args[0] == 'eq' and v:
+                                    lb = c
+                                elif a.args[0] == 'lt':
+                                    # first: len < c ; not first: c < len
+                                    if first and not v:
+                                        lb = c
+                                    elif not first and v:
+                                        lb = c + 1
+                                if lb is not None:
+                                    facts[tok] = max(facts.get(tok, 0), lb)
+                    continue
+                if ev.kind != 'stmt':
+                    continue
+                st = ev.node
+                for sub in ast.walk(st):
+                    if isinstance(sub, ast.Subscript) and isinstance(sub.slice, ast.Constant) and isinstance(sub.slice.value, int) and sub.slice.value >= 0 \
+                            and not isinstance(getattr(sub, 'ctx', None), ast.Store):
+                        base = pe.close(sub.value)
+                        if not (isinstance(base, ast.Call) and isinstance(base.func, ast.Attribute) and base.func.attr == 'split' and lp[0] in names_in(base)):
+                            continue
+                        tok = norm(base)
+                        n += 1
+                        in_try = any(isinstance(t_, ast.Try) and any(sub is x for b in t_.body for x in ast.walk(b)) and
+                                     any(h.type is None or {norm(z).split('.')[-1] for z in (h.type.elts if isinstance(h.type, ast.Tuple) else [h.type])} &
+                                         {'IndexError', 'LookupError', 'Exception'} for h in t_.handlers) for t_ in ast.walk(fn))
+                        if facts.get(tok, 0) > sub.slice.value or in_try:
+                            ctx.ok(f'{tq}: `{short(sub)}` is reached only with len({short(tok, 40)}) >= {facts.get(tok, 0)} on the path [{r.path.describe()[:70]}]')
+                        else:
+                            unguarded.setdefault((tq, norm(sub)), (sub, tok, []))[2].append(r.path.describe()[:100])
+                if not isinstance(st, (ast.Return, ast.Raise, ast.Expr)):
+                    pe.stmt(st)
+    for (tq, acc), (sub, tok, paths_) in unguarded.items():
+        ctx.violation(mod, tq, f'{acc} without a length guard', f'`{acc}` (token {sub.slice.value} of `{short(tok, 50)}`) is evaluated on {len(paths_)} path(s), e.g. '
+                      f'[{paths_[0]}], where nothing ensures that the line has more than {sub.slice.value} token(s): a directive line without a name raises '
+                      f'IndexError (a Python traceback) instead of a MesonException; the #mesondefine sibling checks the token count first', sub)
+    ctx.floor('token accesses in the define transformers', n, 2)
+    ctx.note('closures of the define transformers are not judged separately (they are only called after the enclosing function indexed the same tokens)')
+
+
+# ---------------------------------------------------------------------------------------------
+# R10  cmake scanner: after a placeholder is replaced, scanning resumes behind the inserted value (decision table of the loop body)
+# ---------------------------------------------------------------------------------------------
+def r10(ctx: RuleCtx) -> None:
+    mod = ctx.repo.module(U)
+    host = 'do_replacement_cmake'
+    mod.func(host)
+    n = 0
+    for q, f in mod.funcs().items():
+        if not (q == host or q.startswith(host + '.')):
+            continue
+        text_p = [a.arg for a in f.args.args if a.annotation is not None and norm(a.annotation) == 'str']
+        for w in [x for x in f.body if isinstance(x, ast.While)]:
+            tab = _table(mod, f, body=w.body, handlers=False, unroll=1, name=q + ':scan')
+            for r in T.cast(T.List[shape.XRow], tab.rows):
+                for tp in text_p:
+                    ln = r.env.get(tp)
+                    if not (isinstance(ln, ast.BinOp) and isinstance(ln.op, ast.Add)):
+                        continue
+                    # flatten  text[:i] + V + text[j:]
+                    terms: T.List[ast.AST] = []
+
+                    def flat(x: ast.AST) -> None:
+                        if isinstance(x, ast.BinOp) and isinstance(x.op, ast.Add):
+                            flat(x.left)
+                            flat(x.right)
+                        else:
+                            terms.append(x)
+                    flat(ln)
+                    if len(terms) != 3 or not (isinstance(terms[0], ast.Subscript) and isinstance(terms[0].slice, ast.Slice) and terms[0].slice.lower is None
+                                               and norm(terms[0].value) == tp and terms[0].slice.upper is not None):
+                        raise Undecided(f'{q}: the scanned text is rebuilt as `{short(ln)}`, not as text[:i] + value + text[j:]')
+                    pos = norm(terms[0].slice.upper)
+                    val = norm(terms[1])
+                    idx = r.env.get(pos)
+                    n += 1
+                    if r.path.outcome not in ('fall', 'continue'):
+                        raise Undecided(f'{q}: splice row ends with {r.path.outcome}')
+                    if idx is None:
+                        ctx.ok(f'{q}: after inserting `{short(val, 50)}` at `{pos}` the position is unchanged (the inserted text is scanned next)')
+                        continue
+                    li = _lin(idx)
+                    if li is not None and li[0] == pos and li[1] >= 1:
+                        ctx.violation(mod, q, f'scan position after a replacement: {pos} + {li[1]}',
+                                      f'after `{tp} = {short(ln, 90)}` the scan position becomes `{norm(idx)}`, whatever the length of the inserted value: when the value is '
+                                      f'empty the character that now stands at `{pos}` (the one right after the placeholder) is never examined, so an adjacent placeholder is '
+                                      f'copied out unreplaced (`@A@@B@` with A = "" gives `@B@`)', r.path.events[-1].node if r.path.events else w)
+                    elif f'len({val})' in norm(idx):
+                        ctx.ok(f'{q}: after inserting `{short(val, 50)}` scanning resumes at `{norm(idx)}`')
+                    else:
+                        raise Undecided(f'{q}: scan position after a replacement is `{norm(idx)}`')
+    ctx.floor('cmake scanner: rows that replace a placeholder', n, 1)
 
 
 RULES = [
@@ -1812,5 +2333,8 @@ RULES = [
     Rule('C14.R5', 'generated header: sorted keys, one emission per key', r5),
     Rule('C14.R6', 'context parameters (format switch, data, subproject) are handed on at every call of the pipeline', r6),
     Rule('C14.R7', 'dispatch tests of the per-line loops do not depend on the indentation', r7),
+    Rule('C14.R8', 'cmake formats: the name of an @name@ placeholder is not empty', r8),
+    Rule('C14.R9', 'tokens of a directive line are indexed only under a length guard', r9),
+    Rule('C14.R10', 'cmake scanner resumes behind the inserted value', r10),
 ]
 
